@@ -10,6 +10,7 @@ from fractions import Fraction
 
 from common import coq_eval, frac, close, qlit, TOL_ARITH, TOL_FIT, COQ
 import datagen
+import est_common as ec
 
 PROP_FILE = 'theories/Properties/C05.v'
 MODEL_FILES = ['theories/Spec/WeightSpec.v', 'theories/Model/Ipw.v', 'theories/Model/IpwRun.v']
@@ -230,6 +231,8 @@ def run_iptw(cs, stab, std, numer, bound, fails, size):
     try:
         ip = IPTW(df, 'A', 'Y', weights=cs['weights'], standardize=std)
         ip.treatment_model(cs['rhs'], model_numerator=numer, stabilized=stab, bound=bound, print_results=False)
+        if ec.should_poke(df):
+            ec.poke(ip)        # displays / diagnostics / plots: the exposed weights are read afterwards
         return {'a': [int(v) for v in ip.df['A']], 'd': fl(ip.df['__denom__']), 'n': fl(ip.df['__numer__']),
                 'w': fl(ip.iptw), 'df': ip.df}
     except Exception as e:   # noqa
@@ -375,8 +378,14 @@ def missing_part(ctx, fails, cases):
                         ip = IPTW(df, 'A', 'Y')
                         ip.treatment_model(cs['rhs'], print_results=False)
                         k0 = len(spy.records)
+                        w_t = fl(ip.iptw)
                         ip.missing_model('A + ' + cs['rhs'], stabilized=stab, bound=bound, print_results=False)
                         recs = spy.records[k0:]
+                    # diagnostics with both weight choices (iptw_only=True / False), then the exposed weights are read
+                    ec.poke(ip)
+                    if not np.allclose(np.asarray(fl(ip.iptw), dtype=float), np.asarray(w_t, dtype=float), rtol=1e-12, atol=0, equal_nan=True):
+                        fails.append((size, 'IPTW.iptw.changed-by-diagnostics', 'IPTW.iptw after positivity / standardized_mean_differences / '
+                                      'plot_love / run_diagnostics (iptw_only True and False) differs from the weights treatment_model() exposed', payload))
                 except Exception as e:   # noqa
                     fails.append((size, 'IPTW.missing_model.raises', 'IPTW.missing_model(stabilized=%r, bound=%r) raised %s: %s'
                                   % (stab, bound, type(e).__name__, str(e)[:120]), payload))
@@ -658,6 +667,8 @@ def ipmw_part(ctx, fails, cases):
                 ipm = IPMW(df, missing_variable=mv, stabilized=cs['stabilized'])
                 ipm.regression_models(model_denominator=dens_arg, model_numerator=nums_arg, print_results=False)
                 ipm.fit()
+            if ec.should_poke(df):
+                ec.poke(ipm)
             wt = fl(ipm.Weight)
         except Exception as e:   # noqa
             fails.append((n, ipmw_key(cs, 'raises'), '%s raised %s: %s' % (lab, type(e).__name__, str(e)[:100]), cs))
@@ -849,6 +860,8 @@ def run_ipcw(df, cs):
     ipc = IPCW(df, idvar='id', time='t', event='d')
     ipc.regression_models(model_denominator=cs['den'], model_numerator=cs['num'], print_results=False)
     ipc.fit()
+    if ec.should_poke(df):
+        ec.poke(ipc)
     out = ipc.df
     return {'rid': [int(v) for v in out['rid']], 'id': [int(v) for v in out['id']], 't': fl(out['t']), 'd': [int(v) for v in out['d']],
             'u': [int(v) for v in out['__uncensored__']], 'num': fl(out['__numer__']), 'den': fl(out['__denom__']),
